@@ -1125,3 +1125,89 @@ func TestC18ConcurrentDraw(t *testing.T) {
 func TestC18RaceConcurrentDraw(t *testing.T) {
 	common.Check(t, c18, "TestC18RaceConcurrentDraw", 60, 1200, genConc, concProp)
 }
+
+// ---- faithful verdict on long fault-free scenarios ---------------------------------------------------------------------
+
+// longCase: NO twins (nothing is faulty, so the consensus under test is safe and a faithful report says so). One node is
+// partitioned off for the first Apart views and together with the others afterwards, so that it catches up on many blocks
+// at once; leaders rotate over the other nodes while it is apart.
+type longCase struct {
+	Rules    string
+	Apart    int // views the node spends alone
+	Together int // views after it rejoined
+	Node     int // 1..4
+}
+
+func longProp(c longCase) common.Result {
+	all := []NodeID{{1, 0}, {2, 0}, {3, 0}, {4, 0}}
+	var s Scenario
+	lone := NodeID{hotstuff.ID(c.Node), 0}
+	for v := 0; v < c.Apart+c.Together; v++ {
+		var view View
+		if v < c.Apart {
+			rest := NodeSet{}
+			for _, id := range all {
+				if id != lone {
+					rest.Add(id)
+				}
+			}
+			one := NodeSet{}
+			one.Add(lone)
+			view.Partitions = []NodeSet{rest, one}
+			l := 1 + v%4
+			if l == c.Node {
+				l = 1 + (v+1)%4
+			}
+			view.Leader = hotstuff.ID(l)
+		} else {
+			set := NodeSet{}
+			for _, id := range all {
+				set.Add(id)
+			}
+			view.Partitions = []NodeSet{set}
+			view.Leader = hotstuff.ID(1 + v%4)
+		}
+		s = append(s, view)
+	}
+	var opts []core.RuntimeOption
+	if c.Rules == rules.NameFastHotStuff {
+		opts = append(opts, core.WithAggregateQC())
+	}
+	res, err := ExecuteScenario(s, 4, 0, 15*(c.Apart+c.Together), c.Rules, opts...)
+	if err != nil {
+		return common.Fail("execute-error", "%+v: ExecuteScenario: %v", c, err)
+	}
+	if !res.Safe {
+		var logs []string
+		for id, l := range res.NodeCommits {
+			var vs []string
+			for _, b := range l {
+				vs = append(vs, fmt.Sprint(b.View()))
+			}
+			logs = append(logs, fmt.Sprintf("%v: views [%s]", id, strings.Join(vs, " ")))
+		}
+		sort.Strings(logs)
+		return common.Fail("execute-unsafe-without-faults", "%+v: a scenario WITHOUT twins (nothing is faulty) is reported unsafe; commit logs by block view:\n%s", c, strings.Join(logs, "\n"))
+	}
+	cl := []string{"long " + c.Rules}
+	caught := 0
+	if l := res.NodeCommits[lone]; len(l) > 0 {
+		caught = len(l)
+	}
+	if caught >= 34 {
+		cl = append(cl, "long caught-up>=34")
+	}
+	return common.OK(caught >= 20, "", cl...)
+}
+
+// TestC18LongScenarios: fault-free scenarios in which one node catches up on 20..60 views at once are reported safe.
+func TestC18LongScenarios(t *testing.T) {
+	common.Check(t, c18, "TestC18LongScenarios", 40, 1500, func(rt *rapid.T) longCase {
+		return longCase{
+			Rules:    rapid.SampledFrom([]string{rules.NameChainedHotStuff, rules.NameChainedHotStuff, rules.NameSimpleHotStuff, rules.NameFastHotStuff}).Draw(rt, "rules"),
+			Apart:    rapid.IntRange(20, 60).Draw(rt, "apart"),
+			Together: rapid.IntRange(6, 12).Draw(rt, "together"),
+			Node:     rapid.IntRange(1, 4).Draw(rt, "node"),
+		}
+	}, longProp)
+}
